@@ -266,7 +266,10 @@ func (m *Model) Check(op Op, res Result, faulted bool) (viol []string) {
 				}
 			}
 		}
-	case "enum", "page":
+	case "enum", "page", "enumall":
+		if res.Late != nil && res.Late.Load() > 0 {
+			bad("blobserver.EnumerateAll returned (error: %v) while its callback was still being called: %d calls began after the return", res.Err, res.Late.Load())
+		}
 		if res.Err != nil && !faulted {
 			bad("enumerate failed without injected fault: %v", res.Err)
 		}
@@ -310,7 +313,7 @@ func (m *Model) Check(op Op, res Result, faulted bool) (viol []string) {
 			for _, sb := range res.Enum {
 				got[sb.Ref.String()] = true
 			}
-			if op.Kind == "page" || op.Limit <= 0 {
+			if op.Kind == "page" || op.Kind == "enumall" || op.Limit <= 0 {
 				for _, k := range want {
 					if !got[k] {
 						bad("enumerate (complete) missed present blob %s", k)
